@@ -408,6 +408,39 @@ func evalPseudo(p Pseudo, evs []*Event, conds []Lit) bool {
 				}
 			}
 		}
+	case "errIs", "errIsNot", "failed":
+		// errIs(callee|classifier): some earlier call to callee failed (err != nil assumed) and the
+		// classifier atom on its error was assumed true (errIs) / false (errIsNot); failed(callee): err != nil assumed
+		callee, cls, _ := strings.Cut(p.Arg, "|")
+		for _, e := range evs {
+			if e.Kind != EvCall || e.Deferred || e.CalleeName != callee {
+				continue
+			}
+			errv := "err(" + e.Canon + ")"
+			failed := false
+			for _, l := range conds {
+				if l.L == errv && l.RNil && l.Mask == mLT|mGT {
+					failed = true
+				}
+			}
+			if !failed {
+				continue
+			}
+			if p.Kind == "failed" {
+				return true
+			}
+			atom := cls + "(" + errv + ")"
+			for _, l := range conds {
+				if l.L == atom && l.R == "true" {
+					if p.Kind == "errIs" && l.Mask == mEQ {
+						return true
+					}
+					if p.Kind == "errIsNot" && l.Mask == mLT|mGT {
+						return true
+					}
+				}
+			}
+		}
 	case "wrote":
 		field, rhs, _ := strings.Cut(p.Arg, "=")
 		for _, e := range evs {
